@@ -223,6 +223,13 @@ pub struct Gen {
     pub draining: bool,
     pub drain_phase: u8,
     pub drain_tried: std::collections::BTreeSet<String>,
+    /// remaining steps of a burst of valid farm creations on one LP token (worlds whose farm limit
+    /// exceeds one page of the farm queries)
+    pub burst_left: u32,
+    pub burst_done: bool,
+    /// swarm: this run spends a longer setup phase creating and funding five or more pools (long
+    /// simple routes need them)
+    pub pool_rich: bool,
 }
 
 fn dec(s: &str) -> Decimal {
@@ -244,7 +251,8 @@ impl Gen {
                 }
             }
         }
-        Gen { rng, prof, total_steps, emitted: 0, next_id: 0, disabled, draining: false, drain_phase: 0, drain_tried: Default::default() }
+        let pool_rich = prof.w.contains_key("route") && rng.chance(1, 7);
+        Gen { pool_rich, rng, prof, total_steps, emitted: 0, next_id: 0, disabled, draining: false, drain_phase: 0, drain_tried: Default::default(), burst_left: 0, burst_done: false }
     }
 
     fn uid(&mut self, p: &str) -> String {
@@ -842,7 +850,8 @@ impl Gen {
         let mut cur = self.rng.pick(&first.pool_info.asset_denoms).clone();
         let start = cur.clone();
         let mut ops = vec![];
-        let simple = self.rng.chance(3, 4);
+        // long routes may pass through a pool more than once (five distinct connected pools are rare)
+        let simple = self.rng.chance(3, 4) && hops <= 4;
         let mut used: Vec<String> = vec![];
         for _ in 0..hops {
             let cands: Vec<&&PoolInfoResponse> = funded
@@ -1142,6 +1151,11 @@ impl Gen {
         }
         funds.retain(|c| !c.amount.is_zero());
         funds.sort_by(|a, b| a.denom.cmp(&b.denom));
+        if self.burst_left > 0 {
+            if let Some(op) = self.gen_farm_burst(c) {
+                return op;
+            }
+        }
         Op::Fm {
             sender,
             msg: FmMsg::ManageFarm {
@@ -1158,6 +1172,50 @@ impl Gen {
             },
             funds,
         }
+    }
+
+    /// one well-formed farm on the first LP token, funded exactly, active soon and for a while
+    fn gen_farm_burst(&mut self, c: &SimCore) -> Option<Op> {
+        let lp = Self::lp_denoms(c).first()?.clone();
+        let fmc = c.w.fm_config();
+        let fee = fmc.create_farm_fee.clone();
+        let cur = c.w.current_epoch().unwrap_or(0);
+        let start_epoch = match self.rng.below(4) {
+            0 | 1 => None,
+            2 => Some(cur + 1),
+            _ => Some(cur + 1 + (fmc.max_farm_epoch_buffer as u64).min(1).saturating_sub(self.rng.below(2))),
+        };
+        let s = start_epoch.unwrap_or(cur + 1);
+        let preliminary_end_epoch = Some(s + self.rng.range(4, 14));
+        let denom = self.rng.pick(&c.w.cfg.denoms).0.clone();
+        let amount = self.rng.range(1000, 9000) as u128;
+        // a sender who can afford it
+        let users: Vec<String> = c.w.a.users.iter().map(|u| u.to_string()).collect();
+        let mut sender = self.rng.pick(&users).clone();
+        for _ in 0..4 {
+            let need = amount + if fee.denom == denom { fee.amount.u128() } else { 0 };
+            if bal(&c.obs.bal, &sender, &denom) >= need && (fee.denom == denom || bal(&c.obs.bal, &sender, &fee.denom) >= fee.amount.u128()) {
+                break;
+            }
+            sender = self.rng.pick(&users).clone();
+        }
+        let mut funds = if fee.denom == denom {
+            vec![coin(amount + fee.amount.u128(), denom.clone())]
+        } else {
+            vec![coin(amount, denom.clone()), coin(fee.amount.u128(), fee.denom.clone())]
+        };
+        funds.retain(|c| !c.amount.is_zero());
+        funds.sort_by(|a, b| a.denom.cmp(&b.denom));
+        let farm_identifier = if self.rng.chance(1, 4) { Some(self.uid("B")) } else { None };
+        Some(Op::Fm {
+            sender,
+            msg: FmMsg::ManageFarm {
+                action: FarmAction::Create {
+                    params: FarmParams { lp_denom: lp, start_epoch, preliminary_end_epoch, curve: None, farm_asset: coin(amount, denom), farm_identifier },
+                },
+            },
+            funds,
+        })
     }
 
     fn gen_farm_expand(&mut self, c: &SimCore) -> Op {
@@ -1728,9 +1786,31 @@ impl Gen {
         self.emitted += 1;
         let dt = if self.prof.name == "epoch" { self.gen_epoch_dt(c) } else { self.gen_dt(c) };
         // setup phase: make sure there are pools with liquidity
-        let op = if self.emitted <= self.prof.setup_steps {
+        let heavy = c.w.cfg.farm.max_concurrent_farms > 10;
+        if heavy && !self.burst_done && self.emitted > self.prof.setup_steps && !c.obs.pools.is_empty() && self.prof.w.contains_key("farm_create") {
+            self.burst_done = true;
+            if std::env::var("VERIF_DEBUG_BURST").is_ok() { eprintln!("burst candidate at step {}", self.emitted); }
+            if self.rng.chance(3, 4) {
+                self.burst_left = self.rng.range(10, 14) as u32;
+            }
+        }
+        let (op, dt) = if self.burst_left > 0 {
+            self.burst_left -= 1;
+            let op = match self.gen_farm_burst(c) {
+                Some(op) => op,
+                None => self.gen_any(c),
+            };
+            (op, dt.min(self.rng.range(0, 30)))
+        } else {
+            (Op::Noop, dt)
+        };
+        let bursting = !matches!(op, Op::Noop);
+        let op = if bursting {
+            op
+        } else if self.emitted <= self.prof.setup_steps || (self.pool_rich && self.emitted <= 18) {
             let unfunded = c.obs.pools.iter().any(|p| p.total_share.amount.is_zero());
-            if c.obs.pools.is_empty() || (self.emitted <= 2 && c.obs.pools.len() < 2) {
+            let more = self.pool_rich && c.obs.pools.len() < 6 && self.rng.chance(1, 2);
+            if c.obs.pools.is_empty() || (self.emitted <= 2 && c.obs.pools.len() < 2) || more {
                 self.gen_create_pool(c)
             } else if unfunded || self.rng.chance(1, 2) {
                 self.gen_provide(c, false, false)
